@@ -67,7 +67,9 @@ impl Block {
             .binary_search_by(|line_change: &LineChange| {
                 if Self::intersects_with_line_change(&self.content_position_range, line_change) {
                     Ordering::Equal
-                } else if line_change.line < self.content_position_range.start.line {
+                } else if line_change.line < self.content_position_range.end.line {
+                    // Includes a change on the content's first line that ends before the content
+                    // starts (e.g. an edited start tag): the content is still ahead of it.
                     Ordering::Less
                 } else {
                     Ordering::Greater
@@ -87,7 +89,9 @@ impl Block {
                     line_change,
                 ) {
                     Ordering::Equal
-                } else if line_change.line < self.start_tag_position_range.start().line {
+                } else if line_change.line < self.start_tag_position_range.end().line {
+                    // Includes a change on the first line of a multi-line tag that ends before
+                    // the tag starts: the rest of the tag is still ahead of it.
                     Ordering::Less
                 } else {
                     Ordering::Greater
